@@ -806,3 +806,112 @@ def _content_only(v: Sym) -> bool:
     if v[0] == "call" and v[1] == N("len"):
         return True
     return False
+
+
+# ---------------------------------------------------------------------------
+# D6 per-field decisions of dump / __len__ do not depend on the previous field
+
+
+def rule_D6(ctx, rule: str = "D6") -> None:
+    """in the field loops of dump and __len__, a local that is assigned somewhere in the loop body is never read on a
+    path of the same iteration that has not assigned it: otherwise what is emitted for one field depends on the field before
+    it (accumulators written with an augmented assignment are what the loop is for and are exempt)"""
+    mod = ctx.repo.mod(M_INIT)
+    for q in ("Message.dump", "Message.__len__"):
+        fn = mod.func(q)
+        rets = [n for n in ast.walk(fn) if isinstance(n, ast.Return) and n.value is not None]
+        if q.endswith("__len__") and len(rets) == 1 and ast.unparse(rets[0].value) == "len(bytes(self))":
+            ctx.proved(rule, f"{q}:no-loop-carried-decisions", mod.loc(fn), "delegates to dump")
+            continue
+        g = CFG(fn, implicit_exc=False)
+        loops = [nd for nd in g.nodes if nd.kind == "loop" and isinstance(nd.stmt, ast.For) and "meta_by_field_name" in ast.unparse(nd.stmt.iter)]
+        if not loops:
+            ctx.inconclusive(rule, f"{q}:no-loop-carried-decisions", "field loop not found", mod.loc(fn))
+            continue
+        head = loops[0]
+        body_stmts = set()
+        for st in ast.walk(head.stmt):
+            body_stmts.add(id(st))
+        body_nodes = [nd for nd in g.nodes if nd.stmt is not None and id(nd.stmt) in body_stmts and nd.id != head.id and nd.kind in ("stmt", "test", "loop")]
+        assigns: Dict[str, Set[int]] = {}
+        aug: Set[str] = set()
+        for nd in body_nodes:
+            st = nd.stmt
+            if nd.kind == "stmt" and isinstance(st, (ast.Assign, ast.AnnAssign)):
+                tgts = st.targets if isinstance(st, ast.Assign) else [st.target]
+                for t in tgts:
+                    for x in ast.walk(t):
+                        if isinstance(x, ast.Name) and isinstance(x.ctx, ast.Store):
+                            assigns.setdefault(x.id, set()).add(nd.id)
+            elif nd.kind == "stmt" and isinstance(st, ast.AugAssign) and isinstance(st.target, ast.Name):
+                aug.add(st.target.id)
+            elif nd.kind == "loop" and isinstance(st, ast.For):
+                for x in ast.walk(st.target):
+                    if isinstance(x, ast.Name):
+                        assigns.setdefault(x.id, set()).add(nd.id)
+        loop_targets = {x.id for x in ast.walk(head.stmt.target) if isinstance(x, ast.Name)}
+        carried = None
+        n_reads = 0
+        for nd in body_nodes:
+            reads = {x.id for x in own_nodes(nd.stmt) if isinstance(x, ast.Name) and isinstance(x.ctx, ast.Load)}
+            for v in sorted(reads & set(assigns)):
+                if v in loop_targets or v in aug:
+                    continue
+                n_reads += 1
+                through = set(assigns[v]) - {nd.id}
+                if not g.must_pass(head.id, nd.id, through, labels=normal_edge):
+                    # a statement that assigns v and reads it only on its right-hand side after assigning is still a read-before-write: keep it
+                    carried = (v, nd)
+        if carried:
+            v, nd = carried
+            ctx.refuted(rule, f"{q}:no-loop-carried-decisions", f"carried:{v}", f"{mod.rel}:{nd.line}",
+                        f"in the field loop of {q.split('.')[-1]} the local `{v}` is read at line {nd.line} on a path of the iteration that has not assigned it: it still holds the value "
+                        "computed for the previous field, so whether a default-valued field is written depends on the field declared before it", "a present sub-message followed by default scalars")
+        else:
+            ctx.proved(rule, f"{q}:no-loop-carried-decisions", mod.loc(fn), f"{n_reads} reads of loop-assigned locals, all dominated by an assignment of the same iteration")
+
+
+# ---------------------------------------------------------------------------
+# O5 the JSON side asks the same question about oneof selection as the wire side
+
+
+def rule_O5(ctx, rule: str = "O5") -> None:
+    """_include_default_value_for_oneof(field, meta) is True exactly when the field is the selected member of its group:
+    nothing else (group size, value, ...) may switch it off, or the dict/JSON form drops a member the wire form carries"""
+    mod = ctx.repo.mod(M_INIT)
+    fn = mod.func("Message._include_default_value_for_oneof")
+    ctx.analysed("Message._include_default_value_for_oneof")
+    paths = Interp(mod, fork_ifexp=True).run(fn)
+    ctx.count(len(paths))
+    bad = None
+    sel_seen = False
+    for p in paths:
+        if p.outcome != "return" or p.value is None:
+            continue
+        atoms = {show(k): v for k, v in p.valuation.items()}
+        group_none = [v for t, v in atoms.items() if ".group is None" in t]
+        group_not_none = [v for t, v in atoms.items() if ".group is not None" in t or t.endswith(".group")]
+        in_group = (group_none and not group_none[0]) or (group_not_none and group_not_none[0])
+        no_group = (group_none and group_none[0]) or (group_not_none and not group_not_none[0])
+        extra = {t: v for t, v in atoms.items() if ".group" not in t or "_group_current" in t}
+        v = p.value
+        is_sel = v[0] == "op" and v[1] == "==" and "_group_current" in show(v)
+        if v[0] == "op" and v[1] == "and" and "_group_current" in show(v) and ".group" in show(v):
+            sel_seen = True          # `group is not None and selected == name` in one expression
+            continue
+        if is_sel:
+            sel_seen = True
+        if no_group and v == C(False):
+            continue
+        if in_group and is_sel and not [t for t in extra if "_group_current" not in t]:
+            continue
+        bad = (p, atoms, v)
+    if bad:
+        p, atoms, v = bad
+        ctx.refuted(rule, "_include_default_value_for_oneof:selection-only", ";".join(f"{k}={val}" for k, val in sorted(atoms.items()))[:140], mod.loc(fn),
+                    f"for a field inside a group the answer is {show(v)} under {atoms}: something other than 'this member is the selected one' decides whether a default-valued oneof member "
+                    "is written to the dict/JSON form, while dump() writes every selected member", "a oneof with a single member set to 0: bytes carry it, to_dict() drops it")
+    elif not sel_seen:
+        ctx.inconclusive(rule, "_include_default_value_for_oneof:selection-only", "selection test not recognised", mod.loc(fn))
+    else:
+        ctx.proved(rule, "_include_default_value_for_oneof:selection-only", mod.loc(fn), f"{len(paths)} paths")
